@@ -53,6 +53,7 @@ type Op struct {
 	Router string        `json:"router,omitempty"` // "" = "A"
 	After  string        `json:"after,omitempty"`  // start when this yield point has been released AfterN times (Delay = max wait)
 	AfterN int           `json:"after_n,omitempty"`
+	Strict bool          `json:"strict,omitempty"` // with After: skip the operation if the point was not reached within Delay
 
 	// commands
 	Service       string        `json:"service,omitempty"`
